@@ -7,11 +7,12 @@ Property theorems only (plus the helper lemmas they need). The model (`CD.flags`
 `CD.specFlags`, `CD.specEndpoint`, `CD.specBuild`, `CD.specChanges` say what the property demands.
 
 * `C17_classify`          repaired code (`Quirks.none`), **every** annotation term of any nesting
-* `C17_classify_partial`  the code as it is (`Quirks.today`), every term outside the two triggers
+* `C17_classify_partial`  the code as it was found (`Quirks.today`), every term outside the two triggers
+* `C17_classify_current`  the code as it is now (`Quirks.current`), every term with at most one wrapper, any optional spelling
 * `C17_cex_nested`, `C17_cex_optional_spelling`   the triggers are inhabited by real deviations (tests, `decide`)
 * `C17_edges`             nodes / inheritance edges / association edges of the built diagram, exactly once each
 * `C17_edges_perm`        invariance under permutation of the class list
-* `C17_edges_partial`     the same for the code as it is, outside the triggers
+* `C17_edges_partial`, `C17_edges_current`   the same for the code as it was found / as it is now, outside the triggers
 * `C17_views_pure`        with a copied graph no sequence of operations changes any diagram that existed before
 * `C17_views_partial`     the code as it is: true of every run in which no shared graph loses an edge
 * `C17_cex_subdiagram`    the sub-diagram derivation on the shared graph removes edges of its source (test)
@@ -155,45 +156,58 @@ theorem C17_classify (a : Ann) :
     (plain a = true → flags .none a = specFlags a) :=
   ⟨endpoint_none_eq_spec a, optional_none a, fun hp => flags_plain .none a hp (by intro h; rcases h with h | h <;> cases h)⟩
 
-/-- the endpoint of the code as it is, outside the triggers of F-C17-2 and F-C17-3 -/
-theorem endpoint_today (a : Ann) (hn : nested a = false) (ho : oddOptional a = false) :
-    endpoint .today a = specEndpoint a := by
+/-- the endpoint of any code that removes one wrapper, on annotations with at most one wrapper whose optional
+spelling that code recognises -/
+theorem endpoint_single (q : Quirks) (hs : q.singleUnwrap = true) (a : Ann) (hn : nested a = false)
+    (ok : (q.pipeNotOptional = true ∨ q.argZero = true) → oddOptional a = false) :
+    endpoint q a = specEndpoint a := by
+  cases q with | mk sc su p z =>
+  simp only at hs; subst hs
   induction a with
   | builtin b => rfl
   | cls i => rfl
   | enum i => rfl
-  | fwd x ih => exact ih hn ho
+  | fwd x ih => exact ih hn ok
   | union x y w _ _ => cases w <;> rfl
   | optional st x _ =>
     simp [nested, wrapDepth] at hn
-    obtain ⟨he, _⟩ := depth0_endpoint .today x hn
-    show (typeEndpoint1 .today (.optional st (resolve x))).leaf = specEndpoint x
+    obtain ⟨he, _⟩ := depth0_endpoint ⟨sc, true, p, z⟩ x hn
+    show (typeEndpoint1 ⟨sc, true, p, z⟩ (.optional st (resolve x))).leaf = specEndpoint x
     rw [← he]
-    cases st <;> first | rfl | (simp [oddOptional] at ho)
+    cases st <;> cases p <;> cases z <;> first | rfl | (simp [oddOptional] at ok)
   | container k x _ =>
     simp [nested, wrapDepth] at hn
-    obtain ⟨he, _⟩ := depth0_endpoint .today x hn
-    show (typeEndpoint1 .today (.container k (resolve x))).leaf = specEndpoint x
+    obtain ⟨he, _⟩ := depth0_endpoint ⟨sc, true, p, z⟩ x hn
+    show (typeEndpoint1 ⟨sc, true, p, z⟩ (.container k (resolve x))).leaf = specEndpoint x
     rw [← he]
     cases k <;> rfl
   | typeOf x _ =>
     simp [nested, wrapDepth] at hn
-    obtain ⟨he, _⟩ := depth0_endpoint .today x hn
-    show (typeEndpoint1 .today (.typeOf (resolve x))).leaf = specEndpoint x
+    obtain ⟨he, _⟩ := depth0_endpoint ⟨sc, true, p, z⟩ x hn
+    show (typeEndpoint1 ⟨sc, true, p, z⟩ (.typeOf (resolve x))).leaf = specEndpoint x
     rw [← he]
     rfl
 
-theorem optional_today (a : Ann) (ho : oddOptional a = false) :
-    (flags .today a).optional = (specFlags a).optional := by
+/-- `is_optional` = "the outermost form is an optional", for any code that recognises the spelling used -/
+theorem optional_q (q : Quirks) (a : Ann) (ok : q.pipeNotOptional = true → oddOptional a = false) :
+    (flags q a).optional = (specFlags a).optional := by
+  cases q with | mk sc su p z =>
   induction a with
   | builtin b => rfl
   | cls i => rfl
   | enum i => rfl
-  | fwd x ih => exact ih ho
+  | fwd x ih => exact ih ok
   | union x y w _ _ => cases w <;> rfl
-  | optional st x _ => cases st <;> first | rfl | (simp [oddOptional] at ho)
+  | optional st x _ => cases st <;> cases p <;> first | rfl | (simp [oddOptional] at ok)
   | container k x _ => cases k <;> rfl
   | typeOf x _ => rfl
+
+/-- the endpoint of the code as it was found, outside the triggers of F-C17-2 and F-C17-3 -/
+theorem endpoint_today (a : Ann) (hn : nested a = false) (ho : oddOptional a = false) :
+    endpoint .today a = specEndpoint a := endpoint_single .today rfl a hn (fun _ => ho)
+
+theorem optional_today (a : Ann) (ho : oddOptional a = false) :
+    (flags .today a).optional = (specFlags a).optional := optional_q .today a (fun _ => ho)
 
 /-- **C17_classify_partial.** The code as it is: the same three statements for every annotation with at most one
 wrapper (`nested a = false`, trigger of F-C17-2) whose optionals are written `Optional[X]` / `Union[X, None]`
@@ -208,6 +222,21 @@ theorem C17_classify_partial (a : Ann) (hn : nested a = false) (ho : oddOptional
 example : nested (.optional .typing (.fwd (.cls 1))) = false ∧ oddOptional (.optional .typing (.fwd (.cls 1))) = false
     ∧ plain (.optional .typing (.fwd (.cls 1))) = true := by decide
 
+/-- **C17_classify_current.** The code as it is now (`Quirks.current`: optional spellings repaired, one wrapper
+removed): the same three statements for every annotation with at most one wrapper (`nested a = false`, trigger of
+F-C17-2), *in any optional spelling*; and `is_optional` for every term of any nesting. -/
+theorem C17_classify_current (a : Ann) :
+    (flags .current a).optional = (specFlags a).optional ∧
+    (nested a = false → endpoint .current a = specEndpoint a) ∧
+    (plain a = true → flags .current a = specFlags a) :=
+  ⟨optional_q .current a (by intro h; cases h),
+   fun hn => endpoint_single .current rfl a hn (by intro h; rcases h with h | h <;> cases h),
+   fun hp => flags_plain .current a hp (by intro h; rcases h with h | h <;> cases h)⟩
+
+/-- non-vacuity: `"C1" | None` satisfies the hypotheses of `C17_classify_current` and was a counter-example before -/
+example : nested (.optional .pipe (.fwd (.cls 1))) = false ∧ plain (.optional .pipe (.fwd (.cls 1))) = true
+    ∧ oddOptional (.optional .pipe (.fwd (.cls 1))) = true := by decide
+
 /-- **C17_cex_nested** (test, F-C17-2). `Optional[List[C1]]`: the code's endpoint is `List[C1]`, not `C1`; in the
 diagram of `C0 {f0 : Optional[List[C1]]}`, `C1` the association edge is missing. -/
 theorem C17_cex_nested :
@@ -216,8 +245,9 @@ theorem C17_cex_nested :
     nested a = true ∧ endpoint .today a ≠ specEndpoint a ∧ build .today w [0, 1] ≠ specBuild w [0, 1]
       ∧ (specBuild w [0, 1]).edges = [⟨0, 1, .assoc ⟨false, 0⟩⟩] := by decide
 
-/-- **C17_cex_optional_spelling** (test, F-C17-3). `C1 | None` is not classified optional and has no association;
-`Union[None, C1]` is optional with endpoint `NoneType`. -/
+/-- **C17_cex_optional_spelling** (test, F-C17-3, repaired). With the quirks of the tree as it was found
+(`Quirks.today`) `C1 | None` is not classified optional and has no association and `Union[None, C1]` is optional with
+endpoint `NoneType`; with the quirks of the tree as it is now (`Quirks.current`) neither deviates. -/
 theorem C17_cex_optional_spelling :
     let a := Ann.optional .pipe (.cls 1)
     let b := Ann.optional .noneFirst (.cls 1)
@@ -225,7 +255,10 @@ theorem C17_cex_optional_spelling :
     oddOptional a = true ∧ oddOptional b = true ∧ plain a = true ∧ plain b = true
       ∧ (flags .today a).optional = false ∧ (flags .today a).enum = .err ∧ flags .today a ≠ specFlags a
       ∧ endpoint .today b = .noneType ∧ flags .today b ≠ specFlags b
-      ∧ (build .today w [0, 1]).edges = [] ∧ (specBuild w [0, 1]).edges.length = 2 := by decide
+      ∧ (build .today w [0, 1]).edges = [] ∧ (specBuild w [0, 1]).edges.length = 2
+      -- repaired (`Quirks.current`): both spellings are optional with endpoint `C1`, both association edges are there
+      ∧ flags .current a = specFlags a ∧ flags .current b = specFlags b
+      ∧ build .current w [0, 1] = specBuild w [0, 1] := by decide
 
 /-! ## relation discovery -/
 
@@ -483,6 +516,14 @@ theorem C17_edges_partial (w : World) (order : List Nat)
     (h : ∀ c ∈ order, ∀ f ∈ w.publicFields c, nested f.ann = false ∧ oddOptional f.ann = false) :
     build .today w order = specBuild w order :=
   buildWith_congr _ _ w order (fun c hc f hf => endpoint_today f.ann (h c hc f hf).1 (h c hc f hf).2)
+
+/-- **C17_edges_current.** The code as it is now builds the specified diagram whenever no public field of a diagram
+class is annotated with more than one wrapper (F-C17-2) — whatever the spelling of its optionals. -/
+theorem C17_edges_current (w : World) (order : List Nat)
+    (h : ∀ c ∈ order, ∀ f ∈ w.publicFields c, nested f.ann = false) :
+    build .current w order = specBuild w order :=
+  buildWith_congr _ _ w order (fun c hc f hf =>
+    endpoint_single .current rfl f.ann (h c hc f hf) (by intro h; rcases h with h | h <;> cases h))
 
 /-- non-vacuity: a three-class hierarchy with a forward reference, an optional and a collection -/
 example :
